@@ -593,13 +593,15 @@ def run(ctx):
         "month arithmetic is Calendar.addm / lag_months: equal to the source's float-based add_months / dev_lag_months "
         "only where the C12 bridge theorems say so (month-aligned dates, results in 1970-2100; F10 before 1970); the "
         "month-unit theorems themselves hold for every date of year >= 1 (Proofs/CalendarP.v, unbounded, axiom-free)",
-        "result order: Metadata.__lt__ belongs to C01; the model emits slices in the order of the input's distinct "
-        "metadata, which is the sorted order for a sorted input",
+        "result order: the model emits slices in the order of the input's distinct metadata, which is the sorted "
+        "order for a canonical input (C01; C13_metadata_canonical); the new cells are proved to be a legal constructor "
+        "argument (C15_results_constructible), the position-by-position order of the model's list is tied by "
+        "correspondence",
         "to_incremental + _fix_prev_evaluation_date are modelled by the chain they produce; the tie runs the real pipeline",
         "make_right_diagonal(include_historic=True) is outside the placement clause (it is asked to re-create "
         "historic diagonals); it is tied to the model only",
     ]
-    ctx.audit_tree(["Model/Extend.v", "Proofs/Extend.v", "Proofs/AccessorsCal.v", "Proofs/CalendarP.v", "Props/C15.v",
+    ctx.audit_tree(["Model/Extend.v", "Proofs/Extend.v", "Proofs/AccessorsCal.v", "Proofs/AccessorsOrder.v", "Props/C15.v",
                     "GenProps/C15_Tie.v", "GenProps/C15_Gen.v"])
     ctx.prove_static("Props/C15.v", timeout=900)
     translate_and_prove(ctx)
